@@ -7,6 +7,7 @@ from . import kani as K
 def gen_all():
     """regenerate harness families (kani/src/gen_*.rs) -- deterministic given VERIF_SEED"""
     from . import gen
+    C.sync_alt()
     gen.generate_all()
 
 
